@@ -11,6 +11,58 @@ import (
 )
 
 func (vc *VC) evalCall(s *State, call *ast.CallExpr, want int) []*Term {
+	res := vc.evalCall1(s, call, want)
+	if len(vc.frames) == 1 && vc.fn.Spec != nil && vc.fn.Spec.Propagates && !s.dead {
+		vc.trackFailure(s, call, res)
+	}
+	return res
+}
+
+// trackFailure implements the ghost flag of the `propagates` clause: it becomes true when a callee returns a
+// non-nil error or a *plugin.Response that carries a non-empty error message.
+func (vc *VC) trackFailure(s *State, call *ast.CallExpr, res []*Term) {
+	t := vc.frame().info.TypeOf(call)
+	if t == nil {
+		return
+	}
+	var ts []types.Type
+	if tup, ok := t.(*types.Tuple); ok {
+		for i := 0; i < tup.Len(); i++ {
+			ts = append(ts, tup.At(i).Type())
+		}
+	} else {
+		ts = []types.Type{t}
+	}
+	if len(ts) != len(res) {
+		return
+	}
+	failed := s.ghost["$failed"]
+	if failed == nil {
+		failed = False
+	}
+	for i, rt := range ts {
+		if types.TypeString(rt, nil) == "error" {
+			failed = Or(failed, Not(Eq(res[i], IntLit(0))))
+		}
+		if p, ok := rt.(*types.Pointer); ok {
+			if n, ok := p.Elem().(*types.Named); ok && n.Obj().Name() == "Response" && n.Obj().Pkg() != nil && strings.HasSuffix(n.Obj().Pkg().Path(), "/plugin") {
+				st, _ := isStructType(n)
+				for j := 0; j < st.NumFields(); j++ {
+					if st.Field(j).Name() == "Error" {
+						_, arr := vc.fieldArr(s, n, st.Field(j))
+						ep := Select(arr, res[i])
+						_, box := vc.boxArr(s, types.Typ[types.String])
+						failed = Or(failed, And(Not(Eq(res[i], IntLit(0))), Not(Eq(ep, IntLit(0))), Not(Eq(Select(box, ep), strLit("")))))
+					}
+				}
+			}
+		}
+	}
+	s.ghost["$failed"] = s.name("failed", failed)
+	vc.ghostTypes["$failed"] = types.Typ[types.Bool]
+}
+
+func (vc *VC) evalCall1(s *State, call *ast.CallExpr, want int) []*Term {
 	info := vc.frame().info
 	if len(vc.frames) == 1 && vc.fn.Spec != nil && vc.curStmt != nil && (len(vc.fn.Spec.Asserts) > 0 || len(vc.fn.Spec.SiteKFs) > 0) {
 		vc.siteClauses(s, "call:"+exprStr(call.Fun), vc.curStmt)
@@ -61,6 +113,12 @@ func (vc *VC) evalCall(s *State, call *ast.CallExpr, want int) []*Term {
 		} else if o, ok := info.ObjectOf(f.Sel).(*types.Func); ok {
 			return vc.callStatic(s, call, o, nil, nil)
 		}
+	}
+	// context.CancelFunc values: calling them has no effect on program state (assumed)
+	if n, ok := vc.typeOf(call.Fun).(*types.Named); ok && n.Obj().Name() == "CancelFunc" && n.Obj().Pkg() != nil && n.Obj().Pkg().Path() == "context" {
+		vc.eval(s, call.Fun)
+		vc.prog.Assumed["calling a context.CancelFunc does not modify program state"] = true
+		return nil
 	}
 	// dynamic call through a function value
 	fv := vc.eval(s, call.Fun)
